@@ -84,3 +84,11 @@ def size_family(N, marks=(256, 1024, 65536), halo=3):
     for p, s in zip(pos, fam):
         out[p] = s
     return out, pos
+
+
+def composition_family(word, copies=0, extra=()):
+    """Every distinct anagram of word (one amino-acid composition, i.e. one point of a composition histogram), optionally with
+    `copies` further copies of word itself (a clone next to its transposed variants) and some strings of other lengths."""
+    import itertools
+    perms = sorted({"".join(t) for t in itertools.permutations(word)})
+    return perms + [word] * copies + list(extra)
